@@ -126,3 +126,95 @@ def cli_case(args):
         return (path, seed, "ok", None)
     finally:
         shutil.rmtree(d, ignore_errors=True)
+
+
+# ------------------------------------------------------------------------------------------------ construct snippets, exhaustively
+# Small valid declarations / statements that exercise the classifier's parenthesis matching and list loops; EVERY single-token
+# deletion and EVERY truncation of each of them is classified under a time limit (about 1,100 cases).  This is what found the two
+# hangs repaired by the last two fix commits (a resolution indication without ')' and a physical type without 'end units').
+SNIPPET_DECLS = [
+    "signal s : (resolved_fn) std_logic;",
+    "subtype t is (rf) integer range 0 to 3;",
+    "signal s : std_logic_vector(7 downto 0) := (others => '0');",
+    "signal r : rec_t(a(3 downto 0), b(1 downto 0));",
+    "type t is (a, b, c);",
+    "type a_t is array (0 to 3) of integer;",
+    "type a_t is array (natural range <>) of integer;",
+    "type r_t is record a : integer; b : std_logic_vector(3 downto 0); end record r_t;",
+    "function f (a : integer; b : integer) return integer;",
+    "procedure p (signal a : in integer);",
+    "component c is port (a : in std_logic); end component c;",
+    "constant c : t := (others => '0');",
+    "attribute a of s : signal is (1, 2);",
+    "alias x is y [integer, integer return boolean];",
+    "alias x is << signal .tb.dut.s : std_logic_vector(3 downto 0) >>;",
+    "type t is range 0 to 10 units ns; us = 1000 ns; end units t;",
+    'file f : t open read_mode is "x";',
+    "group g : grp (a, b);",
+    "use ieee.std_logic_1164.all, work.p.all;",
+    "for all : comp use entity work.e(rtl);",
+]
+SNIPPET_STMTS = [
+    "u0 : entity work.x generic map (n => 3) port map (a => b, c => d);",
+    "s <= f(a, g(b)) after 1 ns;",
+    "p0 : process (a, b) is begin if (a = '1') then s <= b; elsif b = '0' then s <= a; else null; end if; end process p0;",
+    "g0 : if (a = 1) generate s <= a; end generate g0;",
+    "g0 : for i in 0 to 3 generate s(i) <= a; end generate g0;",
+    "process is begin case (a) is when 1 | 2 => null; when others => null; end case; wait on a, b until (c = '1') for 1 ns; end process;",
+    'assert (a = b) report "x" severity note;',
+    'with (sel) select s <= a when "00", b when others;',
+    "s <= a when (b = '1') else c;",
+    "s <= a'image(b);",
+    "p(a, b);",
+    "b0 : block (clk = '1') is begin s <= guarded a; end block b0;",
+    "process is begin for i in 0 to 3 loop exit when i = 2; next; end loop; while a loop null; end loop; end process;",
+    'process is variable v : integer := 0; begin v := f(1, 2); report "x" & integer\'image(3); return; end process;',
+]
+_TOK = re.compile(r"<<|>>|:=|<=|=>|/=|>=|\*\*|\"[^\"]*\"|'.'|[A-Za-z_][A-Za-z_0-9.]*|\d+|\S")
+
+
+def snippet_jobs():
+    out = []
+    for kind, lst in (("decl", SNIPPET_DECLS), ("stmt", SNIPPET_STMTS)):
+        for k, txt in enumerate(lst):
+            n = len(_TOK.findall(txt))
+            out.append((kind, k, n))
+    return out
+
+
+def snippet_case(job):
+    """all single-token deletions and truncations of one snippet: list of (description, kind, reason)"""
+    kind, k, n = job
+    from vsg import vhdlFile
+    from vsg.exceptions import ClassifyError
+
+    txt = (SNIPPET_DECLS if kind == "decl" else SNIPPET_STMTS)[k]
+    toks = _TOK.findall(txt)
+    out = []
+    signal.signal(signal.SIGALRM, _alarm)
+    for i in range(len(toks)):
+        for mode in ("delete", "truncate"):
+            t2 = toks[:i] + toks[i + 1 :] if mode == "delete" else toks[:i]
+            body = " ".join(t2)
+            if mode == "truncate":
+                src = "architecture rtl of e is\n" + (body if kind == "decl" else "begin\n" + body) + "\n"
+            else:
+                src = "architecture rtl of e is\n" + (body + "\n" if kind == "decl" else "") + "begin\n" + (body + "\n" if kind == "stmt" else "") + "end architecture rtl;\n"
+            what = "%s token %d (%r) of %r" % ("without" if mode == "delete" else "cut in front of", i + 1, toks[i], txt[:60])
+            signal.alarm(LIMIT)
+            try:
+                try:
+                    vhdlFile.vhdlFile(src.split("\n"), sFilename="snippet.vhd")
+                    out.append((what, "accepted", None))
+                except ClassifyError as e:
+                    msg = getattr(e, "message", str(e))
+                    out.append((what, "rejected", None) if re.search(r"Line \d+", msg) else (what, "unlocated", "ClassifyError without a line number: %r" % msg[:120]))
+                except Hang:
+                    out.append((what, "hang", "classification did not terminate within %d s" % LIMIT))
+                except RecursionError as e:
+                    out.append((what, "crash", "RecursionError at %s" % site(e.__traceback__)))
+                except Exception as e:
+                    out.append((what, "crash", "%s at %s" % (type(e).__name__, site(e.__traceback__))))
+            finally:
+                signal.alarm(0)
+    return out
